@@ -301,7 +301,8 @@ def check(pid, tier, batch_seed):
     t_start = time.time()
     mod = load(pid)
     b = mod.budget(tier)
-    n_runs, wall_cap = b["runs"], b.get("wall", 600)
+    # chunk wall cap: generous, the machine may be shared; a kill is always a harness error
+    n_runs, wall_cap = b["runs"], max(b.get("wall", 600), 1800)
     extra_env = b.get("env")
     say("check %s tier=%s VERIF_SEED=%d runs=%d repo_src=%s" % (
         pid, tier, batch_seed, n_runs, repo_src()))
